@@ -24,6 +24,18 @@ CHECKS = {
    "Coq theorems (Props/C01.v): for every database state (hence, by C08, after every history / fill order), every matcher satisfying the matcher contract and every spec string, the diagnostic computed by the model of compare_version + create_diagnostic is the decision table of Spec/Verdict.v applied to the facts (cached latest, tag resolution, well-known tag, well-formedness, some-inside, latest-inside, anchor below latest); the contract is proved for the npm/pnpm/JSR, Cargo and GitHub Actions matchers; corollaries: Invalid beats NotFound, unresolved well-known tags and uncached packages are silent, a failed read yields nothing, messages quote the spec as written. The text of compare_version / create_diagnostic / generate_diagnostics and the tag list are regenerated and pinned. Tied to the code by a stream that fills a real Cache in random batch orders and runs the real generate_diagnostics (model vs implementation), plus an oracle evaluating the table with the reference range semantics of C02.",
    "Trusted: as C02/C03/C08; ecosystem-level facts of the oracle come from the C02 reference semantics; Go and PyPI matcher contracts are covered by correspondence only. Open finding C01-marked-nonexistent-still-judged.",
    "DESIGN.md section 8 C01"),
+ "C09": ("proof",
+   "Coq theorem C09_exclusive: for every schedule of statement-level steps of any number of handles (the two statements of a claim may be separated by arbitrary steps of others, handles may die in between, every other write is atomic) started from the empty cache, whenever a claim succeeds while an earlier successful claim on the same key is unreleased, more than T ms separate the two captured times; T is pinned to 30000 from src/config.rs; failed attempts have no side effect; an uninterrupted attempt succeeds iff the key is unknown, free or expired; the boundary is strict (now - since > T); claims on other keys are independent. The scheduler model is tied to the code by running real claimants (one thread and connection per handle on one file) parked between their two statements through the statement-point hook under generated schedules with a virtual clock around the 30 s boundary, comparing every result and the raw tables, and by a trace oracle on the implementation's own results.",
+   "Trusted: SQLite executes each autocommit statement atomically and serialises writers; separate connections in one process stand for separate processes; hooks H1/H2.",
+   "DESIGN.md section 8 C09"),
+ "C11": ("proof",
+   "Coq theorems (Props/C11.v): any write method whose calls are [reads; begin; writes/reads; commit] is all-or-nothing under a crash or error at any call boundary, for arbitrary statement effects (C11_bracketed_is_atomic); the call sequences of replace_versions and save_dist_tags - regenerated from cache.rs with their transaction brackets on every run - are of that form; release/mark are single statements and the claim's second statement only runs when the first changed nothing; an interrupted schema creation/migration followed by a complete open reaches the full schema; a stale claim expires strictly after T. Tied to the code by injecting a database error in-process and abort()ing a child process at every numbered statement point (incl. first/second loop iteration) after random histories, then reading the file with a fresh handle: the tables must be the state before or after (and the one the model predicts); a second handle reading at each point must also see before or after.",
+   "Trusted: SQLite atomicity/durability under process kill with WAL + synchronous=NORMAL (assumed in the theorems; exercised by abort()); translator extraction of the call sequence; hooks H2. Power loss is outside the stream.",
+   "DESIGN.md section 8 C11"),
+ "C12": ("proof",
+   "Coq theorems (Props/C12.v): for every schema shape a release (or nothing) can have left behind - base tables, + claim column, + both columns, with every recorded version they can carry including newer-than-known - opening reaches the full schema with user_version = max(recorded, 2), is idempotent, recovers from an open interrupted at any statement, and every schema statement is monotone (interleaved opens can only help each other); no schema statement touches a row, so the data component is unchanged. MIGRATIONS is regenerated from cache.rs and pinned. Tied to the code by building legacy files with raw SQL for 8 shapes with random rows, opening them 1-3 times with the real Cache::new, comparing the data and user_version, and replaying random write operations step by step against the model started from the same rows.",
+   "Trusted: SQLite semantics of ALTER TABLE ADD COLUMN / CREATE IF NOT EXISTS / PRAGMA user_version; concurrent opens of two processes are covered by the monotonicity and interrupted-open theorems, not scheduled for real.",
+   "DESIGN.md section 8 C12"),
 }
 props = [json.loads(l)['id'] for l in open(os.path.join(HERE, 'properties.jsonl'))]
 checks = []
